@@ -843,7 +843,7 @@ impl Scenario for C20 {
             });
         }
         // a rendering history over two or three values
-        {
+        if ctx.history_this_run() {
             const NUMS: [u16; 10] = [20, 40, 41, 255, 1000, 2000, 65535, 7, 0, 39];
             let k = wl.urange(2, 3);
             let mut vals: Vec<(u8, u16)> = Vec::new();
